@@ -5,7 +5,14 @@
 
 use crate::{TxId, scheduler::PublishedCursorReader};
 use ahash::AHashSet as HashSet;
+#[cfg(grevm_verif)]
+use grevm_verif_rt::sync::{
+    Mutex,
+    atomic::{AtomicUsize, Ordering},
+};
+#[cfg(not(grevm_verif))]
 use parking_lot::Mutex;
+#[cfg(not(grevm_verif))]
 use std::sync::atomic::{AtomicUsize, Ordering};
 
 struct DependentState {
